@@ -861,7 +861,7 @@ class Interp(Engine):
             return h(self, callee, args, kwargs)
         if getattr(callee, "_specfunc", False):
             return callee(self, *args, **kwargs)
-        if self.spec and callee in (Ref, List, Opt, Tup):
+        if self.spec and callee in (Ref, List, Opt, Tup, Opaque):
             return callee(*args)
         if getattr(callee, "_lambda", None) is not None:
             return callee(*args)
